@@ -120,7 +120,11 @@ def gen_case(draw):
         timing = {'kcyc': draw(st.integers(0, lim[0])), 'iter': draw(st.integers(0, lim[1])),
                   'nm': draw(st.integers(0, lim[2])),
                   'tstart': draw(st.one_of(st.just(0.0), finite(0.0, 1e12))),
-                  'sumtim': draw(st.one_of(st.just(0.0), finite(0.0, 1e15), st.just(1.5e100)))}
+                  'sumtim': draw(st.one_of(st.just(0.0), finite(0.0, 1e15), st.just(1.5e100),
+                                           # a time whose seventh significant digit is decided differently by the 9-decimal timing
+                                           # record and by the 6-decimal header (double rounding when a file is re-written)
+                                           st.builds(lambda d, f, e, tail: float('%d.%06d%se%d' % (d, f, tail, e)), st.integers(1, 9),
+                                                     st.integers(0, 999999), st.integers(0, 14), st.sampled_from(['4999996', '5000004', '4999994']))))}
     return {'k': 'gen', 'blocks': blocks, 'nv': nv, 'pass_nv': (nv > 4) or draw(st.booleans()),
             'check': check, 'toughreact': toughreact, 'timing': timing, 'reset': draw(st.booleans()), 'prewrite': draw(st.sampled_from([None, None, 'reset', 'keep'])),
             'built_by': draw(st.sampled_from(['add', 'add', 'insert-front', 'delete-readd'])),
